@@ -2,6 +2,13 @@ import Qryn.Sql.Segs
 import Qryn.Gen.Params
 import Qryn.Gen.GrammarFields
 import Qryn.LogQL.JsonParserSegs
+import Qryn.LogQL.FormatSegs
+import Qryn.LogQL.SameShapeDec
+import Qryn.Tempo.SearchSegs
+import Qryn.Read.RawSqlTable
+import Driver.C07X
+import Driver.C08
+import Qryn.LogQL.SameShapeMetric
 namespace Driver.C10
 open Qryn Qryn.Lex Qryn.Sql
 
@@ -16,7 +23,64 @@ def tokStr : Tok → String
 def hexList (s : String) : Option (List Bytes) :=
   if s = "-" then some [] else (s.splitOn ",").mapM (fun x => if x = "." then some [] else ofHex x)
 
+/-- template nodes: `,`-separated `T<hex>` (text) / `F<hex>` (field); `~` = none -/
+def tplNodes? (s : String) : Option (List LogQL.TplNode) :=
+  if s = "~" then some [] else (s.splitOn ",").mapM (fun x =>
+    if x.startsWith "T" then (if x.length = 1 then some (.text []) else (ofHex (x.drop 1).toString).map .text)
+    else if x.startsWith "F" then (if x.length = 1 then some (.field []) else (ofHex (x.drop 1).toString).map .field)
+    else none)
+
+def hexOrEmpty? (s : String) : Option Bytes := if s = "." then some [] else ofHex s
+
+def lfOp? (s : String) : Option LogQL.LFOp :=
+  match s.splitOn ":" with
+  | ["R", n, src] => do some (.rename (← hexOrEmpty? n) (← hexOrEmpty? src))
+  | ["T", n, nodes] => do some (.tmpl (← hexOrEmpty? n) (← tplNodes? nodes))
+  | _ => none
+
+def tagOp? : String → Option Tempo.TagOp
+  | "eq" => some .eq | "neq" => some .neq | "re" => some .re | "nre" => some .nre | _ => none
+
+def tag? (s : String) : Option Tempo.Tag :=
+  match s.splitOn ":" with
+  | [n, op, v] => do some ⟨← hexOrEmpty? n, ← tagOp? op, ← hexOrEmpty? v⟩
+  | _ => none
+
 def handle : List String → Option String
+  | ["c10linefmt", nodes] => (tplNodes? nodes).map (fun t => hexOut (LogQL.lineFormatText t))
+  | ["c10labelfmt", col, ops] => do
+    let c ← Driver.C07.str? col
+    let os ← if ops = "-" then some [] else (ops.splitOn ";").mapM lfOp?
+    some (hexOut (LogQL.labelFormatText c os))
+  | ["c10sameshape", ms1, st1, ms2, st2] => do
+    let m1 ← Driver.C07.list? Driver.C07.matcher? ms1
+    let s1 ← Driver.C07.list? Driver.C07X.scriptStage? st1
+    let m2 ← Driver.C07.list? Driver.C07.matcher? ms2
+    let s2 ← Driver.C07.list? Driver.C07X.scriptStage? st2
+    some (if decide (LogQL.sameScript m1 m2 s1 s2) then "1" else "0")
+  | "c10sameshapem" :: rest => do
+    -- two serialised metric queries separated by the token `|`
+    let a := rest.takeWhile (· != "|")
+    let b := (rest.dropWhile (· != "|")).drop 1
+    let (q1, r1) ← Driver.C08.query? a
+    let (q2, r2) ← Driver.C08.query? b
+    if !r1.isEmpty || !r2.isEmpty then none else
+    some (if decide (LogQL.sameShapeM q1 q2) then "1" else "0")
+  | ["c10tempo", fromNs, toNs, minDur, maxDur, limit, v2, idxTable, tracesTable, tags] => do
+    let f ← fromNs.toInt?
+    let t ← toNs.toInt?
+    let mn ← minDur.toInt?
+    let mx ← maxDur.toInt?
+    let l ← limit.toInt?
+    let ts ← if tags = "-" then some [] else (tags.splitOn ";").mapM tag?
+    some (hexOut (Tempo.searchText ⟨← ofHex tracesTable, l, f, t, mn, mx⟩ ⟨← ofHex idxTable, f, t, mn, mx, l, v2 = "1"⟩ ts))
+  | ["c10tempotrace", table, id, s, e] => do
+    some (hexOut (renderSel (Tempo.traceSel (← Driver.C07.str? table) (← hexOrEmpty? id) (← s.toInt?) (← e.toInt?))))
+  | ["c10tempovalues", table, tag] => do
+    some (hexOut (renderSel (Tempo.tagValuesSel (← Driver.C07.str? table) (← hexOrEmpty? tag))))
+  | ["c10census"] =>
+    let es := RawSql.Table.entries
+    some s!"sites={Gen.RawSqlSites.sites.length} const={Gen.RawSqlSites.constSites} sql={(es.filter (·.role == .sql)).length}       request-carrying={(es.filter RawSql.carriesRequestText).length} marker={(es.filter (·.role == .marker)).length}       notSql={(es.filter (·.role == .notSql)).length} dead={(es.filter (·.role == .dead)).length}"
   | ["quote", h] => (ofHex h).map (fun b => hexOut (quote b))
   | ["like", h] => (ofHex h).map (fun b => hexOut (likeLiteral b))
   | ["lex", h] => (ofHex h).map (fun b => " ".intercalate ((lex b).map tokStr))
